@@ -21,6 +21,8 @@ CONSTANTS Pres,          \* initial conditions: subset of {"fresh","offerer","an
           Modes,         \* transport modes the programs are run in (not part of the dynamics)
           Medias,        \* what the connection carries: "av" (audio+video transceivers), "dc" (data channel only),
                          \* "avdc" (both); not part of the dynamics either
+          Envs,          \* "ok" | "nobind" (no local socket can be bound: allowed calls may then be refused,
+                         \* which the contract permits - and they must still be atomic); not part of the dynamics
           LocalClasses,  \* description classes for set_local:  subset of DescClasses
           RemoteClasses, \* description classes for set_remote: subset of DescClasses
           MaxLen,        \* number of calls in a program
